@@ -261,6 +261,40 @@ func matrix() []Case {
 			}
 		}
 	}
+	// F: the storage refuses. Every call at which it can refuse an exchange x every error style x refusing right away /
+	// after the call's work x router, for a request whose premises all hold and which reaches that call (requested type and
+	// token kinds chosen accordingly; thorough: every requested type).
+	for _, router := range routers {
+		for _, at := range vetoPlaces {
+			for _, style := range vetoStyles {
+				afters := []bool{false, true}
+				if vkit.Tier() != "thorough" {
+					// quick: each call x style once per router, the two timings and the three requested types taking turns
+					n++
+					afters = afters[n%2 : n%2+1]
+				}
+				for _, after := range afters {
+					reqs := []string{"access", "refresh", "id"}
+					if vkit.Tier() != "thorough" {
+						reqs = reqs[(n/2)%3 : (n/2)%3+1]
+					}
+					for _, req := range reqs {
+						c := baseCase(router)
+						c.Break, c.Requested, c.IssueJWT = "sweep-store-veto", req, true
+						c.StoreVeto = &VetoSpec{At: at, Style: style, After: after}
+						switch at {
+						case "lookup":
+							c.Subject = good[2]
+						case "verify":
+							c.Subject = good[4]
+							c.Extras, c.Policy.VerifyThird = true, true
+						}
+						out = append(out, c)
+					}
+				}
+			}
+		}
+	}
 	return out
 }
 
@@ -277,5 +311,5 @@ func TestMatrix(t *testing.T) {
 		}
 	}
 	rec.SetExtra("sweep_cases", len(cases))
-	rec.SetExtra("sweep_exhaustive_over", "token kind/state x declared type x role x router; subject x actor x requested x default x format x router; application type x auth method x grant registration x credential presentation x router; subject kind x same string as actor x declared actor type (x verifier role) x router; act policy x actor x requested type x router; token kind x role x (host of issue x host served first | key change x earlier rotation x token minted before / after / presented again) x router")
+	rec.SetExtra("sweep_exhaustive_over", "token kind/state x declared type x role x router; subject x actor x requested x default x format x router; application type x auth method x grant registration x credential presentation x router; subject kind x same string as actor x declared actor type (x verifier role) x router; act policy x actor x requested type x router; token kind x role x (host of issue x host served first | key change x earlier rotation x token minted before / after / presented again) x router; storage call that refuses (6) x error style (115) x right away / after the call's work x router")
 }
